@@ -204,6 +204,9 @@ pub struct Gen<'a> {
     /// while-loop counters: never chosen as the target of a generated `let`
     protected: Vec<String>,
     last_row: Option<Vec<Entry>>,
+    /// > 0 inside the body of a while whose condition draws from random(): a resetRandom there
+    /// would make the condition draw the same value for ever
+    no_reset: usize,
 }
 
 impl<'a> Gen<'a> {
@@ -790,6 +793,23 @@ impl<'a> Gen<'a> {
     fn gen_while(&mut self, depth: usize) -> Vec<Item> {
         // returns [let w = K; while(cond) body end while]  (or a bare while)
         let mut out = vec![];
+        if self.cfg.allow_random > 0 && self.r.chance(250, 1000) {
+            // while (random(K) < T): every evaluation of the condition draws once; goes on with
+            // probability (T-1)/(K-1) <= 3/4, so it ends after a few rounds (geometrically).
+            // The body may be empty.
+            let k = self.r.range(3, 6);
+            let t = self.r.range(2, k - 1);
+            let cond = Expr::Bin(
+                BinOp::Lt,
+                Box::new(Expr::Random(Box::new(Expr::Num(k, Radix::Dec)))),
+                Box::new(Expr::Num(t, Radix::Dec)),
+            );
+            self.no_reset += 1;
+            let body = if self.r.chance(1, 2) { vec![] } else { self.in_while_body(depth, None) };
+            self.no_reset -= 1;
+            out.push(Item::While(cond, body));
+            return out;
+        }
         let kind = self.r.below(10);
         let done_sig = self
             .readable
@@ -878,6 +898,14 @@ impl<'a> Gen<'a> {
     }
 
     fn block_inner(&mut self, depth: usize) -> Vec<Item> {
+        if depth > 0 && self.r.chance(40, 1000) {
+            // an empty body (possibly just a blank or comment line)
+            return match self.r.below(3) {
+                0 => vec![],
+                1 => vec![Item::Blank],
+                _ => vec![Item::Comment(" empty".into())],
+            };
+        }
         let n = self.between(self.cfg.block_items);
         let mut items = vec![];
         for _ in 0..n {
@@ -888,7 +916,7 @@ impl<'a> Gen<'a> {
                 self.cfg.w_repeat,
                 if can_nest { self.cfg.w_loop } else { 0 },
                 if can_nest { self.cfg.w_while } else { 0 },
-                self.cfg.w_reset,
+                if self.no_reset > 0 { 0 } else { self.cfg.w_reset },
                 self.cfg.w_blank,
                 self.cfg.w_comment,
             ];
@@ -1120,6 +1148,7 @@ pub fn generate(r: &mut Prng, cfg: &GenCfg) -> Case {
         loop_counters: vec![],
         protected: vec![],
         last_row: None,
+        no_reset: 0,
     };
     g.gen_config();
     let layout = g.gen_layout_and_readable();
